@@ -23,7 +23,7 @@ CATALOGUES = {
         "P|p1|A+,B+|2M1D1M", "P|p2|B-,A-|*", "P|p4|A+,B+,C-|*,*",
         "P|p5|A+,C+,A+|1M,*,*", "P|p6|C+|*", "S|E|*|aa:A:c|bb:i:1|cc:J:[1, 2]",
         "P|B|A+,B+|*", "L|A|+|C|+|*|ID:Z:C", "C|A|+|B|+|1|2M", "C|A|+|C|+|0|*", "C|A|+|A|-|0|*", "C|B|-|B|-|1|*|ID:Z:c2",
-        "P|p9|A+,A-,B+|2M1D1M,*", "P|p10|A+,C+,A+|2M,*",
+        "P|p9|A+,A-,B+|2M1D1M,*", "P|p10|A+,C+,A+|2M,*", "P|p11|A+|2M", "L|A|+|C|+|3M", "P|p12|A+,C+|3M", "P|p13|C-,A-|2M",
         "#| comment", "H|xx:i:1", "H|TS:i:1", "H|yy:i:2|TS:i:2", "H|TS:i:0", "H|ab:Z:x|TS:i:5", "H|ab:Z:y|cd:i:0|TS:i:0",
     ], ids=["A", "B", "C", "p1", "p2", "l1", "c1", "zz", "1", "3"], unused=True,
         renames=[("A", "D"), ("A", "B"), ("B", "p1"), ("p1", "q"), ("l1", "l2"), ("C", "zz"), ("A", "4"), ("3", "5"),
@@ -32,6 +32,7 @@ CATALOGUES = {
                   ("A", "zz:A:q"), ("D", "zz:i:3")],
         deltags=[("l1", "ID:Z:l1"), ("c1", "ID:Z:c1"), ("F", "aa:A:c"), ("E", "cc:J:[1, 2]"), ("D", "zz:A:q")],
         clones=[("E", "F"), ("A", "D"), ("p1", "q"), ("p6", "p7"), ("A", "B")],
+        hadds=[("xx:i:7", True), ("xx:i:1", True), ("yy:i:3", True), ("xx:i:abc", False), ("yy:i:q", False), ("TS:i:1", True), ("TS:i:9", True)],
         badlines=["L|A|+|B|+|2Q", "L|A|+|C|x|*", "C|A|+|B|+|-1|*", "P|p1|A+,B+|1M,1M,1M", "S|A|AC GT", "L|B|+|C|-|*|ID:Z:l1|ID:Z:l2",
                   "P|p8|A+,,B+|*", "C|A|+|B|+|1|2M|zz:i:x"], badtags=[("A", "xx:Z:bad"), ("p1", "yy:Z:bad"), ("l1", "RC:Z:bad")], addcs=["S|A|ACGT", "L|A|+|C|+|1M", "C|A|+|B|+|1|2M", "P|p2|B-,A-|*"],
         setfs=[("S|C|*", 2, "ACG"), ("S|A|ACGT", 2, "*"), ("L|A|+|B|+|2M1D1M", 5, "*"), ("L|A|+|C|+|1M", 2, "-"),
@@ -70,6 +71,7 @@ CATALOGUES = {
                   ("f", "bb:Z:t")],
         badtags=[("a", "xx:Z:bad"), ("e1", "yy:Z:bad"), ("u1", "yy:Z:bad")],
         clones=[("f", "h"), ("a", "d"), ("e1", "e9"), ("o1", "o9"), ("u1", "u9"), ("g1", "g9"), ("a", "b")],
+        hadds=[("TS:i:10", True), ("TS:i:11", True), ("zq:i:2", True), ("zq:i:x y", False), ("TS:i:abc", False)],
         badlines=["E|e1|a+|b+|5|2|0|2|*", "E|e5|b+|c+|3|6$|0|3$|2Q", "G|g1|a+|b-|x|*", "F|a|x+|3|1|0|2|*",
                   "O|o1|a+ b", "U|u1|a  b", "E|e3|a+|c+|1|2|1|2|*|zz:i:x", "G|g2|b+|c|5|2"],
         deltags=[("h", "aa:A:c"), ("f", "bb:i:1"), ("e9", "yy:Z:a b")],
@@ -105,6 +107,7 @@ CATALOGUES["perm2"] = dict(version="gfa2", lines=[
     "O|o1|a+ b+", "O|o2|a+ e1+ b+", "O|o3|o2- c+", "O|o1|c+|xx:i:1",
     "U|u1|a e1 g1", "U|u2|u1 o1", "U|u1|c|yy:i:2", "U|u5|a g1", "O|o5|a+ g1+ b-", "O|o6|e1- a-",
     "X|custom|1", "H|VN:Z:2.0", "H|TS:i:10", "X|custom|1", "# gfa2 comment", "# gfa2 comment",
+    "E|*|a+|c+|1|2|1|2|*", "G|*|a+|b-|10|*", "G|*|a+|b-|10|*",
 ], ids=["a", "b", "c", "e1", "g1", "o1", "o2", "u1"], renames=[])
 
 
@@ -116,11 +119,19 @@ CATALOGUES["permg"] = dict(version="gfa2", lines=[
 CATALOGUES["perml"] = dict(version="gfa1", lines=[
     "S|A|*", "S|B|*", "L|A|-|A|-|1M", "L|A|+|B|+|*", "L|B|+|B|+|2M1D1M", "P|p|A+,A+,B+|*",
     "P|q|B-,A-,A-|*", "P|r|B+,B+|2M1D1M", "P|s|B-,B-,A-|1M1I2M,*", "L|A|+|A|-|2M", "P|h|A+,A-|*",
+
 ], ids=["A", "B", "p", "q"], renames=[])
+# parallel links that differ in the overlap, paths stating one of them in either direction, a circular
+# path over one segment and its self link
+CATALOGUES["permp"] = dict(version="gfa1", lines=[
+    "S|A|*", "S|B|*", "L|B|+|A|+|1M", "L|B|+|A|+|2M", "P|t|B+,A+|2M", "P|v|A-,B-|1M", "L|A|-|A|-|1M", "P|w|A-|1M",
+    "P|x|A+|1M",
+], ids=["A", "B", "t", "v", "w"], renames=[])
 # version queue with clashing identifiers (known findings of C08: the flush is not transactional)
 CATALOGUES["kfq"] = dict(version="none", lines=[
     "P|A|B+,C+|*", "S|A|*", "L|A|+|B|+|*|ID:Z:x", "P|x|A+,B+|*", "S|B|*", "#| c", "H|VN:Z:1.0|bb:i:2", "H|aa:i:1",
     "H|TS:i:0", "H|ab:Z:x|TS:i:5", "H|VN:Z:1.0|TS:i:7",
+    "X|custom|1", "Y|c|2", "O|o1|a+ o1+", "E|e1|e1+|b+|0|1|0|1|*", "S|a|3|*", "U|u1|a u1",
     "C|A|+|B|+|0|*|ID:Z:x",
 ], ids=["A", "x"], renames=[])
 CATALOGUES["ver"] = dict(version="none", lines=[
@@ -136,6 +147,7 @@ CATALOGUES["ver"] = dict(version="none", lines=[
 CATALOGUES["vern"] = dict(version="none", lines=[
     "S|ab:Z:x|*", "S|ab:Z:x|3|*", "S|cd:i:1|*|LN:i:4", "S|cd:i:1|4|*|xx:Z:y", "S|B|ACGT|xx:i:1",
     "L|ab:Z:x|+|B|+|*", "E|e|ab:Z:x+|cd:i:1-|0|1|2|3$|*", "H|VN:Z:1.0", "H|VN:Z:2.0", "P|p|ab:Z:x+,B+|*",
+    "X|custom|1", "E|f|f+|B-|0|1|2|3$|*", "O|o|B+ o+",
 ], ids=["ab:Z:x", "B"], renames=[])
 
 
@@ -172,12 +184,12 @@ CATALOGUES["topo1"] = dict(version="gfa1", lines=[
     "S|A|ACGT", "S|B|*|LN:i:6", "S|C|AC", "S|D|A",
     "L|A|+|B|+|*", "L|B|+|C|-|1M", "L|A|+|A|+|*", "L|D|+|D|-|*", "L|C|-|A|+|*", "L|D|+|B|+|*", "L|D|-|C|-|*",
     "C|A|+|D|+|0|*", "C|A|+|A|-|0|*", "P|p|A+,B+|*",
-], ids=["A", "B", "C", "D"], renames=[("A", "E")], rsc=[3, 7, 20], rsl=True)
+], ids=["A", "B", "C", "D"], renames=[("A", "E"), ("B", "b c"), ("C", "*"), ("D", "A")], rsc=[3, 7, 20], rsl=True)
 CATALOGUES["topo2"] = dict(version="gfa2", lines=[
     "S|a|4|*", "S|b|6|*", "S|c|2|*", "S|d|1|*",
     "E|e1|a+|b+|2|4$|0|2|*", "E|e2|b+|c-|3|6$|1|2$|*", "E|e3|a+|a+|3|4$|0|1|*", "E|*|c+|d+|0|2$|0|1|*",
     "E|e5|a+|d+|1|2|0|1$|*", "E|e6|b+|d+|1|2|0|1|*", "O|o|a+ e1+ b+", "U|u|c d",
-], ids=["a", "b", "c", "d", "e1"], renames=[("a", "x")], rsc=[2, 7, 20], rsl=True)
+], ids=["a", "b", "c", "d", "e1"], renames=[("a", "x"), ("b", "b c"), ("c", ""), ("d", "a"), ("e1", "e 1")], rsc=[2, 7, 20], rsl=True)
 
 
 def name_class(name):
@@ -207,6 +219,8 @@ def build_ops(cat):
             ops.append(dict(k="disc", text=text_of(ln), id="", id2=""))
     for a, b in cat.get("clones", []):
         ops.append(dict(k="addcl", text="", id=a, id2=b))
+    for tag, ok in cat.get("hadds", []):
+        ops.append(dict(k="hadd", text="H\t" + tag, id="", id2="valid" if ok else "invalid"))
     for ln in cat.get("badlines", []):
         ops.append(dict(k="add", text=text_of(ln), id="", id2="invalid"))
     for ln in cat.get("addcs", []):
@@ -322,6 +336,10 @@ def apply_op(gfapy, gfa, op, version):
         if prev_obj is not None and gfa.line(f0[1]) is not prev_obj:
             # the object that carried the identifier has been superseded (placeholder, earlier group line)
             gfa.__dict__.setdefault("_verif_stale", {})[f0[1]] = prev_obj
+    elif k == "hadd":
+        # header.add(tag, value): one more value for a header tag (no datatype given)
+        n, t, v = op["text"].split("\t")[1].split(":", 2)
+        gfa.header.add(n, int(v) if (t == "i" and op["id2"] != "invalid") else v)
     elif k == "tog2":
         gfa.to_gfa2_s()
     elif k == "stale":
@@ -669,7 +687,8 @@ def random_jobs(catname, n, depth, seed, vlevel=1, kind="rand", cfgversion=None)
     ops = build_ops(cat)
     rnd = random.Random(seed)
     adds = [o for o in ops if o["k"] == "add"]
-    others = [o for o in ops if o["k"] != "add" and (vlevel >= 3 or o.get("id2") != "bad")]
+    others = [o for o in ops if o["k"] != "add" and (vlevel >= 3 or o.get("id2") != "bad")
+              and (vlevel >= 2 or not (o["k"] == "hadd" and o["id2"] == "invalid"))]
     jobs = []
     universe = universe_of(cat)
     for i in range(n):
@@ -755,7 +774,8 @@ def doc_jobs(catname, n, nmut, seed, vlevel=1, kind="doc", cfgversion=None):
     ops = build_ops(cat)
     rnd = random.Random(seed)
     adds = [o for o in ops if o["k"] == "add"]
-    others = [o for o in ops if o["k"] != "add" and (vlevel >= 3 or o.get("id2") != "bad")]
+    others = [o for o in ops if o["k"] != "add" and (vlevel >= 3 or o.get("id2") != "bad")
+              and (vlevel >= 2 or not (o["k"] == "hadd" and o["id2"] == "invalid"))]
     universe = universe_of(cat)
     jobs = []
     for i in range(n):
@@ -773,6 +793,26 @@ def doc_jobs(catname, n, nmut, seed, vlevel=1, kind="doc", cfgversion=None):
         jobs.append(dict(id="%s-%s-%d" % (kind, catname, i), kind=kind,
                          cfg=dict(version=cfgversion or cat["version"], vlevel=vlevel),
                          ops=h, universe=universe))
+    return jobs
+
+
+def hdr_jobs(catname, n, seed, vlevel=1, kind="hdr"):
+    """header histories: the H lines of the catalogue and header.add() calls (valid values, and at
+    level >= 2 values the datatype of the tag cannot hold) in random order"""
+    cat = CATALOGUES[catname]
+    ops = build_ops(cat)
+    rnd = random.Random(seed)
+    hl = [o for o in ops if o["k"] == "add" and o["text"].startswith("H\t")]
+    ha = [o for o in ops if o["k"] == "hadd" and (vlevel >= 2 or o["id2"] != "invalid")]
+    other = [o for o in ops if o["k"] == "add" and o["text"][0] in "S#"][:3]
+    jobs = []
+    for i in range(n):
+        h = [rnd.choice(hl)]
+        for _ in range(rnd.randint(3, 7)):
+            c = rnd.random()
+            h.append(rnd.choice(ha) if (c < 0.5 and ha) else rnd.choice(hl) if c < 0.9 else rnd.choice(other))
+        jobs.append(dict(id="%s-%s-%d-%d" % (kind, catname, vlevel, i), kind=kind, cfg=dict(version=cat["version"], vlevel=vlevel),
+                         ops=h, universe=universe_of(cat)))
     return jobs
 
 
